@@ -103,6 +103,9 @@ def crash_site(stderr_json):
     except Exception:
         txt = stderr_json.replace('\\n', '\n')
     what = 'report'
+    m = re.search(r'C15-SIGNAL (\d+)', txt)
+    if m:
+        return 'signal_%s_without_sanitizer_report' % m.group(1)
     m = re.search(r'runtime error: ([^\n]*)', txt)
     if m:
         what = re.sub(r'0x[0-9a-f]+', 'ADDR', m.group(1)).replace(' ', '_')[:60]
